@@ -136,7 +136,8 @@ fn corrupt_addr(a: &str, kind: u8, other_prefix: &str) -> String {
     let dec = bech32_decode(a);
     let payload = dec.as_ref().and_then(|d| d.payload()).unwrap_or_else(|| vec![7; 20]);
     let hrp = dec.as_ref().map(|d| d.hrp.clone()).unwrap_or_else(|| "x".into());
-    match kind % 11 {
+    match kind % 12 {
+        11 => crate::crypto::bech32_encode_data5(&hrp, &[(kind / 12) % 32; 1][..]),
         0 => bech32_encode(other_prefix, &payload),
         1 => a.to_uppercase(),
         2 => {
@@ -236,7 +237,7 @@ impl RawCfg {
                     self.validators.push(corrupt_addr(&self.staker.clone(), k, &self.nprefix.clone()));
                 } else {
                     let i = *i as usize % self.validators.len();
-                    if k % 12 == 11 {
+                    if k % 24 == 23 {
                         let d = self.validators[i].clone();
                         self.validators.push(d);
                     } else {
@@ -249,7 +250,7 @@ impl RawCfg {
                     self.monitors.push(corrupt_addr(&self.staker.clone(), k, &self.nprefix.clone()));
                 } else {
                     let i = *i as usize % self.monitors.len();
-                    if k % 12 == 11 {
+                    if k % 24 == 23 {
                         let d = self.monitors[i].clone();
                         self.monitors.insert(0, d);
                     } else {
@@ -481,7 +482,23 @@ fn relevant(mask: u8, f: &Field) -> bool {
     }
 }
 
+thread_local! {
+    static PANICS_ONLY: std::cell::Cell<bool> = std::cell::Cell::new(false);
+}
+
+/// C16 view of the same cases: only a panic of an entry point counts (whatever the message was).
+pub fn check_cfg_case_panics(c: &CfgCase, agg: &mut Agg) -> Result<(), String> {
+    PANICS_ONLY.with(|p| p.set(true));
+    let r = check_cfg_case(c, agg);
+    PANICS_ONLY.with(|p| p.set(false));
+    match r {
+        Err(m) if m.contains("panic") => Err(m),
+        _ => Ok(()),
+    }
+}
+
 pub fn check_cfg_case(c: &CfgCase, agg: &mut Agg) -> Result<(), String> {
+    let panics_only = PANICS_ONLY.with(|p| p.get());
     let clean = build(&c.seed);
     let mut raw = clean.clone();
     for k in &c.corrupt {
@@ -497,8 +514,8 @@ pub fn check_cfg_case(c: &CfgCase, agg: &mut Agg) -> Result<(), String> {
     if let Some(p) = &out.panic {
         // C16's domain is "accepted configurations"; a panic while validating is reported there as well,
         // here it only counts when the configuration was clean
-        if !corrupted {
-            return Err(format!("instantiate panicked on a valid configuration: {} at {}", p.message, p.location));
+        if !corrupted || panics_only {
+            return Err(format!("instantiate panicked on a {} configuration: panic {} at {}\n{:?}", if corrupted { "corrupted" } else { "valid" }, p.message, p.location, raw));
         }
         agg.evaluations += 1;
         return Ok(());
@@ -563,7 +580,7 @@ pub fn check_cfg_case(c: &CfgCase, agg: &mut Agg) -> Result<(), String> {
                 let out = ch.execute(sender, &[], msg);
                 let what = format!("step {i}: UpdateConfig mask={mask:#07b} by_admin={by_admin} {:?}", r2);
                 if let Some(p) = &out.panic {
-                    if was_clean {
+                    if was_clean || panics_only {
                         return Err(format!("{what}: panic {} at {}", p.message, p.location));
                     }
                     continue;
